@@ -185,6 +185,53 @@ Proof.
   rewrite K. unfold nx_edge, nx_remove_node. cbn [ge]. now rewrite find_filter_other.
 Qed.
 
+(* ---------- removal of the 'contraction' bookkeeping from the survivor's links ---------- *)
+Lemma edge_is_strip u a b e : edge_is a b (strip_edge u e) = edge_is a b e.
+Proof. destruct e as [[p q] d]. unfold strip_edge. destruct (edge_touches u (p, q, d)); reflexivity. Qed.
+
+Lemma pres_strip u G a b : pres (strip_contraction u G) a b = pres G a b.
+Proof.
+  rewrite !pres_existsb. unfold strip_contraction. cbn [ge].
+  induction (ge G) as [|e r IH]; [reflexivity|]. cbn [map existsb]. now rewrite edge_is_strip, IH.
+Qed.
+
+Lemma find_strip u a b l :
+  find (edge_is a b) (map (strip_edge u) l) = option_map (strip_edge u) (find (edge_is a b) l).
+Proof.
+  induction l as [|e r IH]; [reflexivity|]. cbn [map find]. rewrite edge_is_strip.
+  destruct (edge_is a b e); [reflexivity | exact IH].
+Qed.
+
+Lemma nx_edge_strip_other u G a b : a <> u -> b <> u -> nx_edge (strip_contraction u G) a b = nx_edge G a b.
+Proof.
+  intros Ha Hb. unfold nx_edge, strip_contraction. cbn [ge]. rewrite find_strip.
+  destruct (find (edge_is a b) (ge G)) as [[[p q] d]|] eqn:E; [|reflexivity]. cbn [option_map].
+  apply find_some in E as [_ E]. unfold strip_edge.
+  assert (edge_touches u (p, q, d) = false).
+  { unfold edge_is in E. unfold edge_touches. apply N.eqb_neq in Ha, Hb.
+    apply orb_true_iff in E as [E|E]; apply andb_true_iff in E as [E1 E2]; apply N.eqb_eq in E1, E2; subst p q;
+      now rewrite Ha, Hb. }
+  now rewrite H.
+Qed.
+
+Lemma aget_drop_key k ps : aget k (drop_key k ps) = None.
+Proof.
+  unfold drop_key. induction ps as [|[k' v] r IH]; [reflexivity|]. cbn [filter fst].
+  destruct (N.eqb k' k) eqn:E; cbn [negb]; [exact IH|]. cbn [aget]. rewrite N.eqb_sym, E. exact IH.
+Qed.
+
+Lemma nx_edge_strip_u u G y ps : nx_edge (strip_contraction u G) u y = Some ps -> aget k_contraction ps = None.
+Proof.
+  unfold nx_edge, strip_contraction. cbn [ge]. rewrite find_strip.
+  destruct (find (edge_is u y) (ge G)) as [[[p q] d]|] eqn:E; [|discriminate]. cbn [option_map].
+  apply find_some in E as [_ E]. unfold strip_edge.
+  assert (edge_touches u (p, q, d) = true).
+  { unfold edge_is in E. unfold edge_touches.
+    apply orb_true_iff in E as [E|E]; apply andb_true_iff in E as [E1 E2]; apply N.eqb_eq in E1, E2; subst;
+      rewrite N.eqb_refl; [reflexivity | apply orb_true_r]. }
+  rewrite H. cbn [fst snd]. intro H0. inversion H0. apply aget_drop_key.
+Qed.
+
 (* ---------- the property policy ---------- *)
 Definition policy_spec (pol : list (N * N)) (other : props) (k : N) (m : pval) : option pval :=
   match aget k pol with
@@ -218,6 +265,8 @@ Theorem merge_ok_spec G g n g2 pol G' :
     (* every link of either node is a link of the surviving node *)
     (forall y, y <> u -> y <> v -> pres G' u y = pres G u y || pres G v y) /\
     (forall a b, a <> u -> b <> u -> a <> v -> b <> v -> nx_edge G' a b = nx_edge G a b) /\
+    (* no link of the surviving node carries networkx's 'contraction' bookkeeping *)
+    (forall y ps, nx_edge G' u y = Some ps -> aget k_contraction ps = None) /\
     (* the properties follow the policy, key by key *)
     exists np, nx_node G' u = Some np /\
       forall k, aget k np = match aget k mine with
@@ -237,15 +286,17 @@ Proof.
     destruct (find_node_sound G g n u Hnd Eu) as [p1 [A1 [A2 _]]].
     destruct (find_node_sound G g2 n u Hnd Ev) as [p2 [B1 [B2 _]]].
     rewrite A1 in B1. inversion B1; subst p2. apply Eg. eapply has_val_inj; eauto. }
-  assert (Hcu : nx_node (contract G u v) u = Some mine) by (rewrite nx_node_contract; assumption).
-  assert (Hgn : gn (contract G u v) = filter (fun nd => negb (N.eqb (fst nd) v)) (gn G)).
-  { unfold contract. now rewrite gn_fold_remap. }
-  assert (Hcv : forall ps, nx_node (nx_set_node (contract G u v) u ps) v = None).
+  set (G1 := strip_contraction u (contract G u v)) in *.
+  assert (Hcu : nx_node G1 u = Some mine).
+  { change (nx_node (contract G u v) u = Some mine). rewrite nx_node_contract; assumption. }
+  assert (Hgn : gn G1 = filter (fun nd => negb (N.eqb (fst nd) v)) (gn G)).
+  { unfold G1, strip_contraction, contract. cbn [gn]. now rewrite gn_fold_remap. }
+  assert (Hcv : forall ps, nx_node (nx_set_node G1 u ps) v = None).
   { intro ps. unfold nx_node, nx_set_node. cbn [gn]. rewrite aget_set_node.
     assert (N.eqb v u = false) by (apply N.eqb_neq; congruence). rewrite H0.
     rewrite Hgn. apply aget_None_notin. rewrite (map_fst_filter_fst (fun i => negb (N.eqb i v))). intro Hin. apply filter_In in Hin as [_ Hin].
     rewrite N.eqb_refl in Hin. discriminate. }
-  assert (Hci : forall ps i, i <> u -> i <> v -> nx_node (nx_set_node (contract G u v) u ps) i = nx_node G i).
+  assert (Hci : forall ps i, i <> u -> i <> v -> nx_node (nx_set_node G1 u ps) i = nx_node G i).
   { intros ps i Hiu Hiv. unfold nx_node, nx_set_node. cbn [gn]. rewrite aget_set_node.
     assert (N.eqb i u = false) by now apply N.eqb_neq. rewrite H0. rewrite Hgn.
     clear -Hiv. induction (gn G) as [|[j q] r IH]; [reflexivity|]. cbn [filter fst].
@@ -253,19 +304,22 @@ Proof.
     - apply N.eqb_eq in E; subst j. assert (N.eqb i v = false) by now apply N.eqb_neq. now rewrite H.
     - destruct (N.eqb i j); [reflexivity | exact IH]. }
   assert (Hpres : forall ps y, y <> u -> y <> v ->
-                  pres (nx_set_node (contract G u v) u ps) u y = pres G u y || pres G v y).
-  { intros ps y Hyu Hyv. rewrite <- contract_neighbours by assumption. reflexivity. }
+                  pres (nx_set_node G1 u ps) u y = pres G u y || pres G v y).
+  { intros ps y Hyu Hyv. rewrite <- contract_neighbours by assumption. rewrite <- (pres_strip u (contract G u v)). reflexivity. }
   assert (Hels : forall ps a b, a <> u -> b <> u -> a <> v -> b <> v ->
-                 nx_edge (nx_set_node (contract G u v) u ps) a b = nx_edge G a b).
-  { intros ps a b H1 H2 H3 H4. rewrite <- (contract_elsewhere G u v a b) by assumption. reflexivity. }
-  assert (Hnu : forall ps, nx_node (nx_set_node (contract G u v) u ps) u = Some ps).
+                 nx_edge (nx_set_node G1 u ps) a b = nx_edge G a b).
+  { intros ps a b H1 H2 H3 H4. rewrite <- (contract_elsewhere G u v a b) by assumption.
+    rewrite <- (nx_edge_strip_other u (contract G u v) a b) by assumption. reflexivity. }
+  assert (Hnoc : forall ps y q, nx_edge (nx_set_node G1 u ps) u y = Some q -> aget k_contraction q = None).
+  { intros ps y q Hq. apply (nx_edge_strip_u u (contract G u v) y q). exact Hq. }
+  assert (Hnu : forall ps, nx_node (nx_set_node G1 u ps) u = Some ps).
   { intro ps. unfold nx_node, nx_set_node. cbn [gn]. rewrite aget_set_node, N.eqb_refl.
     unfold nx_node in Hcu. now rewrite Hcu. }
   exists u, v, mine, other.
   destruct pol as [p|].
   - destruct (merge_props p mine other mine) as [np|] eqn:Em; inversion H; subst G'.
-    repeat split; auto. exists np. split; [apply Hnu|]. intro k.
+    repeat split; auto; try (intros; eapply Hnoc; eauto). exists np. split; [apply Hnu|]. intro k.
     rewrite (merge_props_spec p mine other mine np Em k). reflexivity.
-  - inversion H; subst G'. repeat split; auto. exists mine. split; [apply Hnu|].
+  - inversion H; subst G'. repeat split; auto; try (intros; eapply Hnoc; eauto). exists mine. split; [apply Hnu|].
     intro k. now destruct (aget k mine).
 Qed.
